@@ -212,7 +212,11 @@ func VerifC14Crash() {
 		if live[via] == nil {
 			return false
 		}
-		req := &pb.Dataset{Dimension: uint32(2 + n), PartitionCount: 1, ReplicationFactor: uint32(verifrt.IntIn("replication", 1, members))}
+		rf := members
+		if verifrt.Bound("items", 0) == 0 || members == 1 {
+			rf = verifrt.IntIn("replication", 1, members)
+		}
+		req := &pb.Dataset{Dimension: uint32(2 + n), PartitionCount: 1, ReplicationFactor: uint32(rf)}
 		var id []byte
 		dm := live[via].datasetManager
 		err, answered := async(via, func() error {
@@ -262,7 +266,7 @@ func VerifC14Crash() {
 	itemState := map[int]int{} // 1 acknowledged present, 2 acknowledged removed, 3 unknown
 	var itemDs []byte
 	itemDim := 0
-	if nItems > 0 && members == 1 && !down() {
+	if nItems > 0 && !down() {
 		for k, id := range created {
 			if want[string(id)] {
 				itemDs, itemDim = id, 2+k
@@ -394,15 +398,17 @@ func VerifC14Crash() {
 	}
 	if itemDs != nil {
 		dsId, _ := uuidFromBytes(itemDs)
-		itemsOk := false
-		for k := 0; k < 60 && !itemsOk; k++ {
-			tick(1)
-			ds, gerr := live[1].datasetManager.Get(dsId)
+		memberOk := func(mid uint64) bool {
+			srv := live[mid]
+			if srv == nil {
+				return false
+			}
+			ds, gerr := srv.datasetManager.Get(dsId)
 			if gerr != nil {
-				continue
+				return false
 			}
 			var res index.SearchResult
-			serr, answered := async(1, func() error {
+			serr, answered := async(mid, func() error {
 				var e error
 				// (Dataset.Search fans out over gRPC even to the local node; the partitions are searched directly)
 				var pids []uuid.UUID
@@ -414,10 +420,9 @@ func VerifC14Crash() {
 				return e
 			}, 20)
 			if !answered || serr != nil {
-				continue
+				return false
 			}
 			found := map[int]bool{}
-			extra := false
 			for _, it := range res {
 				hit := false
 				for i := 0; i < nItems; i++ {
@@ -426,18 +431,30 @@ func VerifC14Crash() {
 					}
 				}
 				if !hit {
-					extra = true
+					return false
 				}
 			}
-			itemsOk = !extra
 			for i := 0; i < nItems; i++ {
 				switch itemState[i] {
-				case 0:
-					itemsOk = itemsOk && !found[i]
+				case 0, 2:
+					if found[i] {
+						return false
+					}
 				case 1:
-					itemsOk = itemsOk && found[i]
-				case 2:
-					itemsOk = itemsOk && !found[i]
+					if !found[i] {
+						return false
+					}
+				}
+			}
+			return true
+		}
+		itemsOk := false
+		for k := 0; k < 80 && !itemsOk; k++ {
+			tick(1)
+			itemsOk = true
+			for mid := uint64(1); mid <= uint64(members); mid++ {
+				if !memberOk(mid) {
+					itemsOk = false
 				}
 			}
 		}
